@@ -173,9 +173,14 @@ class Dist:
             return "RootFull(r=N)" if s["k"] == 0 else "RootFull(r>N)"
         return s["rep"]
 
+    @property
+    def bc(self):
+        """Which of mean / covariance has to be broadcast to reach the distribution batch shape."""
+        return {(False, False): "full", (True, False): "locbc", (False, True): "covbc", (True, True): "loc+covbc"}[
+            (self.loc_bcast, self.cov_bcast)]
+
     def cls(self, *extra):
-        bc = "locbc" if (self.loc_bcast and self.lazy) else "full"
-        return "|".join([self.rep_label, bc, *extra])
+        return "|".join([self.rep_label, self.bc, *extra])
 
     def cond(self):
         ev = torch.linalg.eigvalsh(self.C_raw)
@@ -319,7 +324,7 @@ KRON_FACT = {2: [(1, 2), (2, 1)], 3: [(1, 3), (3, 1)], 4: [(2, 2), (2, 2), (1, 4
 
 
 @st.composite
-def dist_recipe(draw, reps=ALL_REPS, full=None, N=None, p_same=0.6, mb=None, cb=None):
+def dist_recipe(draw, reps=ALL_REPS, full=None, N=None, p_same=0.75, mb=None, cb=None):
     rep = draw(st.sampled_from(reps))
     if N is None:
         if rep == "Kron":
@@ -379,7 +384,11 @@ def log_prob_cases(draw):
     vb = draw(value_shape(batch))
     # values of the batch may extend a size-1 distribution dim as well
     if draw(st.integers(0, 5)) == 0:
-        vb = [draw(EXT) if (e == 1 and i >= len(vb) - len(batch)) else e for i, e in enumerate(vb)]
+        def dist_extent(i):  # extent of the distribution batch dim aligned with position i of vb (1 if there is none)
+            j = i - (len(vb) - len(batch))
+            return batch[j] if 0 <= j < len(batch) else 1
+
+        vb = [draw(EXT) if (e == 1 and dist_extent(i) == 1) else e for i, e in enumerate(vb)]
     path = draw(st.sampled_from(["chol_off", "fast", "fast", "fast_cg"]))
     case = {"dist": s, "vb": vb, "value": draw(nums(prod(vb) * s["N"])), "path": path}
     if path == "fast_cg":
@@ -387,14 +396,33 @@ def log_prob_cases(draw):
     return case
 
 
+def _diff_cover_tag(D: Dist, vb):
+    """How (value - mean), computed on the shapes *as given*, relates to the covariance batch shape as given:
+    full         mean and covariance both carry the whole distribution batch shape
+    bc-covered   broadcasting is needed, and value - mean has at least the covariance's batch dims with no 1-vs-k gap
+    bc-lowrank   value - mean has fewer batch dims than the covariance
+    bc-uncovered value - mean has extent 1 where the covariance batch has k > 1
+    (only used to key findings narrowly; for a dense-tensor covariance torch broadcasts at construction: always full)"""
+    if D.bc == "full" or not D.lazy:
+        return "full"
+    db = list(torch.broadcast_shapes(tuple(vb), tuple(D.s["mb"])))
+    cb = list(D.s["cb"])
+    if len(db) < len(cb):
+        return "bc-lowrank"
+    al = db[len(db) - len(cb):]
+    if any(a == 1 and c > 1 for a, c in zip(al, cb)):
+        return "bc-uncovered"
+    return "bc-covered"
+
+
 def run_log_prob(case, ctx: Ctx):
     s = case["dist"]
     path = case["path"]
     D = Dist(s, ctx)
     v = T(case["value"], case["vb"] + [D.N])
-    ctx.cls = D.cls(path)
+    ctx.cls = "|".join([D.rep_label, _diff_cover_tag(D, case["vb"]), path])
     vrel = "v=dist" if case["vb"] == D.batch else ("v<dist" if len(case["vb"]) < len(D.batch) or prod(case["vb"]) < prod(D.batch) else "v>dist")
-    ctx.label(f"rep={D.rep_label}", f"path={path}", f"value:{vrel}", f"locbc={D.loc_bcast}", f"covbc={D.cov_bcast}",
+    ctx.label(f"rep={D.rep_label}", f"path={path}", f"value:{vrel}", f"bc={D.bc}", f"cell={ctx.cls.split('|')[1]}",
               f"rank(batch)={len(D.batch)}", f"N={D.N}")
     ctx.set_nontrivial(case["vb"] != D.batch or D.lazy)
     kappa = D.cond()
@@ -426,7 +454,8 @@ def run_log_prob(case, ctx: Ctx):
                 got = D.d.log_prob(v)
         ev = torch.linalg.eigvalsh(D.C)
         se = torch.sqrt(2.0 * ev.log().pow(2).sum(-1) / Tn)  # per batch element
-        bound = (0.5 * 6.0 * se).expand(want.shape[-se.dim():] if se.dim() else ()).expand(want.shape) + 1e-4 * want.abs() + 1e-5
+        # log_prob = -(inv_quad + logdet + const)/2: the logdet error enters halved; CG part: rtol 1e-4 / atol 1e-5 (DESIGN 1.4)
+        bound = (0.5 * 6.0 * se).expand(want.shape) + 1e-4 * want.abs() + 1e-5
         ctx.comparisons += 1
         if tuple(got.shape) != tuple(want.shape):
             ctx.fail("log_prob_cg", "shape", f"got shape {tuple(got.shape)}, expected {tuple(want.shape)}")
@@ -445,10 +474,10 @@ def kl_cases(draw):
     reps = reps_for_N(PD_REPS, N)
     if N == 6:
         reps = ["Kron", "dense", "DenseLO"]
-    q = draw(dist_recipe(reps=reps, full=full, N=N, p_same=0.7))
+    q = draw(dist_recipe(reps=reps, full=full, N=N, p_same=0.8))
     case = {"kind": kind, "q": q}
     if kind == "pq":
-        case["p"] = draw(dist_recipe(reps=reps, full=full, N=N, p_same=0.7))
+        case["p"] = draw(dist_recipe(reps=reps, full=full, N=N, p_same=0.8))
     elif kind == "delta":
         qb = list(torch.broadcast_shapes(tuple(q["mb"]), tuple(q["cb"])))
         vb = draw(value_shape(qb, extra=False))
@@ -473,7 +502,7 @@ def run_kl(case, ctx: Ctx):
     kind = case["kind"]
     Q = Dist(case["q"], ctx, "construct_q")
     kq = Q.cond()
-    ctx.cls = Q.cls(kind)
+    ctx.cls = Q.cls("kl_" + kind)
     ctx.label(f"kl:{kind}", f"kl.q={Q.rep_label}", f"kl.fast={case['fast']}")
     if kq > 1e8:
         raise Discard("cond > 1e8")
@@ -495,7 +524,7 @@ def run_kl(case, ctx: Ctx):
     else:
         P = Dist(case["p"], ctx, "construct_p")
         ctx.label(f"kl.p={P.rep_label}")
-        ctx.cls = "|".join([P.rep_label, Q.rep_label, "locbc" if ((P.loc_bcast and P.lazy) or (Q.loc_bcast and Q.lazy)) else "full", "pq"])
+        ctx.cls = "|".join([P.rep_label, Q.rep_label, "full" if (P.bc == "full" and Q.bc == "full") else "bc", "pq"])
     kp = P.cond()
     if kp > 1e8:
         raise Discard("cond > 1e8")
@@ -509,8 +538,10 @@ def run_kl(case, ctx: Ctx):
     if kind == "pq":
         ctx.close("kl", got, want, rtol=tol, atol=tol)
     else:
-        # identical arguments: exactly 0 up to 1e-10 (the individual terms are O(N + |logdet|); DESIGN C10)
-        ctx.close("kl_identical", got, torch.zeros_like(want), rtol=0.0, atol=max(1e-10, 10 * tol * 1e-3), scale=1.0)
+        # identical arguments: 0 +- 1e-10 (DESIGN C10); the terms that cancel are O(N + |logdet|) and each carries the
+        # rounding of one Cholesky, so the floor grows with the condition number: 1e-2 * solve_tol (= 1e-8 at cond 1e8,
+        # 2e-10 at the largest cond the generator produces, 1e5)
+        ctx.close("kl_identical", got, torch.zeros_like(want), rtol=0.0, atol=max(1e-10, 1e-2 * tol), scale=1.0)
 
 
 # ====================================================================================================
@@ -529,8 +560,8 @@ def run_rsample(case, ctx: Ctx):
     D = Dist(case["dist"], ctx)
     w = D.base_width()
     ss = case["sample_shape"]
-    ctx.cls = D.cls()
-    ctx.label(f"rs.rep={D.rep_label}", f"rs.sample_rank={len(ss)}", f"rs.locbc={D.loc_bcast}")
+    ctx.cls = D.cls("rsample")
+    ctx.label(f"rs.rep={D.rep_label}", f"rs.sample_rank={len(ss)}", f"rs.bc={D.bc}")
     ctx.set_nontrivial(D.lazy or len(ss) != 1)
     with ctx.observing("base_sample_shape"):
         bss = tuple(D.d.base_sample_shape)
@@ -568,8 +599,8 @@ def run_moments(case, ctx: Ctx):
     D = Dist(case["dist"], ctx)
     n = 20000
     ss = [n // 4, 4] if case["split"] else [n]
-    ctx.cls = D.cls()
-    ctx.label(f"mom.rep={D.rep_label}", f"mom.sample_rank={len(ss)}")
+    ctx.cls = D.cls("moments")
+    ctx.label(f"mom.rep={D.rep_label}", f"mom.sample_rank={len(ss)}", f"mom.bc={D.bc}")
     ctx.set_nontrivial(True)
     torch.manual_seed(case["torch_seed"])
     with ctx.observing("sample"):
@@ -602,12 +633,12 @@ def variance_cases(draw):
 def run_variance(case, ctx: Ctx):
     D = Dist(case["dist"], ctx)
     mv = case["min_var"]
-    ctx.cls = D.cls()
+    ctx.cls = D.cls("variance")
     floor = 1e-10 if mv is None else mv  # documented default for float64 (settings.min_variance docstring)
     diag = D.C.diagonal(dim1=-1, dim2=-2)
     want_var = diag.clamp_min(floor)
     clamped = bool((diag < floor).any())
-    ctx.label(f"var.rep={D.rep_label}", f"var.clamped={clamped}", f"var.locbc={D.loc_bcast}", f"var.covbc={D.cov_bcast}")
+    ctx.label(f"var.rep={D.rep_label}", f"var.clamped={clamped}", f"var.bc={D.bc}")
     ctx.set_nontrivial(D.lazy or clamped)
     scope = gpytorch.settings.min_variance(double_value=mv) if mv is not None else gpytorch.settings.min_variance()
     with ctx.observing("variance"):
@@ -638,7 +669,7 @@ def arith_cases(draw):
     full = draw(st.lists(EXT, max_size=2))
     N = draw(st.sampled_from([1, 2, 3, 4, 4, 5, 6]))
     reps = reps_for_N(ALL_REPS, N) if N < 6 else ["Kron", "dense", "DenseLO"]
-    s = draw(dist_recipe(reps=reps, full=full, N=N, p_same=0.7))
+    s = draw(dist_recipe(reps=reps, full=full, N=N, p_same=0.8))
     batch = list(torch.broadcast_shapes(tuple(s["mb"]), tuple(s["cb"])))
     case = {"op": op, "dist": s}
     if op in ("add_scalar", "radd_scalar", "mul"):
@@ -646,7 +677,7 @@ def arith_cases(draw):
     elif op == "div":
         case["c"] = draw(SCAL.filter(lambda c: abs(c) >= 0.125))
     elif op == "add_mvn":
-        case["other"] = [draw(dist_recipe(reps=reps, full=full, N=N, p_same=0.7))]
+        case["other"] = [draw(dist_recipe(reps=reps, full=full, N=N, p_same=0.8))]
     elif op == "sum":
         # sum([...]) needs equal batch shapes only up to broadcasting
         case["other"] = draw(st.lists(dist_recipe(reps=reps, full=full, N=N, p_same=0.8), min_size=0, max_size=2))
@@ -668,10 +699,12 @@ def run_arith(case, ctx: Ctx):
     op = case["op"]
     D = Dist(case["dist"], ctx)
     ctx.cls = D.cls(op)
-    ctx.label(f"op={op}", f"op.rep={D.rep_label}", f"op.locbc={D.loc_bcast}")
+    ctx.label(f"op={op}", f"op.rep={D.rep_label}", f"op.bc={D.bc}")
     ctx.set_nontrivial(D.lazy)
     N = D.N
     others = [Dist(o, ctx, f"construct_other{i}") for i, o in enumerate(case.get("other", []))]
+    if D.bc == "full" and any(o.bc != "full" for o in others):
+        ctx.cls = "|".join([D.rep_label, "otherbc", op])
     if op == "add_scalar":
         with ctx.observing(op):
             r = D.d + case["c"]
@@ -747,7 +780,18 @@ def run_arith(case, ctx: Ctx):
     # expand / unsqueeze hand over)
     ev = torch.linalg.eigvalsh(wC)
     lo = float(ev.min())
-    if lo > 0 and float(ev.max()) / lo <= 1e8:
+    krons = {(o.s["n1"], o.s["n2"]) for o in [D] + others if o.s["rep"] == "Kron"}
+    if len(krons) > 1:
+        # dependency defect, outside /repo: the sum of two KroneckerProductLinearOperators whose factors have different
+        # sizes (2x3 and 3x2) becomes a SumKroneckerLinearOperator whose inv_quad_logdet raises a matmul shape error in
+        # linear_operator itself.  mean / covariance of the sum are still judged.
+        ctx.label("op.result_log_prob=excluded:Kron+Kron-different-factors(linear_operator)")
+    elif D.s["rep"] == "Chol" and op in ("mul", "div") and case["c"] != 1:
+        # dependency defect, outside /repo: `CholLinearOperator(L) * c` (RootLinearOperator._mul_constant rebuilt as a
+        # CholLinearOperator) has a wrong solve / inv_quad (or raises NotPSDError) in linear_operator itself, without
+        # gpytorch involved.  mean / covariance above are still judged; the density of the product is not.
+        ctx.label("op.result_log_prob=excluded:Chol*scalar(linear_operator)")
+    elif lo > 0 and float(ev.max()) / lo <= 1e8:
         kappa = float((ev.max(-1).values / ev.min(-1).values).max())
         tol = solve_tol(kappa)
         v = T(case["v"], [N]) if case["vmode"] == "event" else (wm + T(case["v"], [N]))
@@ -814,7 +858,7 @@ def index_oracle(mean, C, idx):
                                 ellipsis=bool(n_ell), short=len(idx) - n_ell < nd)
 
 
-def run_index_common(D: Dist, idx, ctx: Ctx):
+def run_index_common(D: Dist, idx, ctx: Ctx, bare=False):
     status, exp, fl = index_oracle(D.mean, D.C, idx)
     if status != "ok":
         ctx.label(f"idx.skip:{status}")
@@ -833,7 +877,7 @@ def run_index_common(D: Dist, idx, ctx: Ctx):
               f"idx.short={fl['short']}")
     ctx.set_nontrivial(fl["touches_event"])
     with ctx.observing("getitem"):
-        r = D.d[idx]
+        r = D.d[idx[0]] if (bare and len(idx) == 1) else D.d[idx]  # d[i] and d[(i,)] are both documented forms
         gm = r.mean
         gC = r.covariance_matrix
         gb, ge = tuple(r.batch_shape), tuple(r.event_shape)
@@ -897,10 +941,10 @@ def family_dim_options(size):
     return out
 
 
-def family(shape):
+def family(shape, zero_width_ellipsis=True):
     """All index tuples of the family for a mean of shape `shape`: full-length products, shorter prefixes, and `...`
     inserted at every position of every tuple that is shorter than the number of dimensions (and of full-length ones,
-    where it stands for zero dimensions)."""
+    where it stands for zero dimensions - optional)."""
     opts = [family_dim_options(n) for n in shape]
     nd = len(shape)
     for k in range(1, nd + 1):
@@ -909,21 +953,27 @@ def family(shape):
     # ellipsis: choose which leading dims (p of them) and trailing dims (q of them) are indexed explicitly
     for p in range(0, nd + 1):
         for q in range(0, nd + 1 - p):
+            if p + q == nd and not zero_width_ellipsis:
+                continue
             lead, trail = opts[:p], opts[nd - q:] if q else []
             for combo in itertools.product(*lead, *trail):
                 yield list(combo[:p]) + ["..."] + list(combo[p:])
 
 
-ENUM_QUICK = [("dense", [2, 3]), ("DenseLO", [2, 3]), ("Diag", [2, 3]), ("RootLow", [2, 3]), ("RootFull", [2, 3]), ("Chol", [2, 3]),
-              ("AddedDiag", [2, 3]), ("BatchRepeat", [2, 3]), ("Kernel", [2, 3]), ("Kron", [2, 4]),
-              ("dense", [2, 2, 3]), ("DenseLO", [2, 2, 3])]
-ENUM_THOROUGH = ENUM_QUICK + [(r, [2, 2, 3]) for r in ("Diag", "RootLow", "RootFull", "Chol", "AddedDiag", "BatchRepeat", "Kernel")] + [("Kron", [2, 2, 4])]
+# (rep, mean shape, include full-length tuples that additionally carry a zero-width `...`)
+ENUM_QUICK = [(r, [2, 3], True) for r in ("dense", "DenseLO", "Diag", "RootLow", "RootFull", "Chol", "AddedDiag", "BatchRepeat", "Kernel")] + [
+    ("Kron", [2, 4], True), ("DenseLO", [2, 2, 3], False)]
+ENUM_THOROUGH = [(r, [2, 3], True) for r in ("dense", "DenseLO", "Diag", "RootLow", "RootFull", "Chol", "AddedDiag", "BatchRepeat", "Kernel")] + [
+    ("Kron", [2, 4], True)] + [(r, [2, 2, 3], r == "DenseLO") for r in ("dense", "DenseLO", "Diag", "RootLow", "RootFull", "Chol", "AddedDiag",
+                                                                     "BatchRepeat", "Kernel")] + [("Kron", [2, 2, 4], False)]
 
 
 def enumerate_index(tier):
-    for rep, shape in (ENUM_QUICK if tier == "quick" else ENUM_THOROUGH):
-        for ix in family(shape):
+    for rep, shape, zw in (ENUM_QUICK if tier == "quick" else ENUM_THOROUGH):
+        for ix in family(shape, zw):
             yield {"rep": rep, "shape": shape, "idx": ix}
+            if len(ix) == 1:
+                yield {"rep": rep, "shape": shape, "idx": ix, "bare": True}
 
 
 _FIXED = {}
@@ -935,9 +985,9 @@ def run_index_enum(case, ctx: Ctx):
     s = _FIXED.get(key)
     if s is None:
         s = _FIXED[key] = fixed_recipe(case["rep"], case["shape"])
-    ctx.cls = f"{case['rep']}|{'x'.join(map(str, case['shape']))}"
+    ctx.cls = f"{case['rep']}|full|index{'x'.join(map(str, case['shape']))}"
     D = Dist(s, ctx)
-    run_index_common(D, decode_idx(case["idx"]), ctx)
+    run_index_common(D, decode_idx(case["idx"]), ctx, bare=case.get("bare", False))
 
 
 @st.composite
@@ -969,13 +1019,13 @@ def index_cases(draw):
         p = draw(st.integers(0, k))
         q = k - p
         ix = [draw(idx_dim(shape[i])) for i in range(p)] + ["..."] + [draw(idx_dim(shape[nd - q + j])) for j in range(q)]
-    return {"dist": s, "idx": ix}
+    return {"dist": s, "idx": ix, "bare": draw(st.booleans())}
 
 
 def run_index(case, ctx: Ctx):
     D = Dist(case["dist"], ctx)
-    ctx.cls = D.cls()
-    run_index_common(D, decode_idx(case["idx"]), ctx)
+    ctx.cls = D.cls("index")
+    run_index_common(D, decode_idx(case["idx"]), ctx, bare=case.get("bare", False))
 
 
 # ====================================================================================================
@@ -996,13 +1046,13 @@ SPEC = PropertySpec(
         "index expressions with an index tensor in a batch position and in the event position are excluded (no single reading of 'marginal')",
     ],
     subchecks=[
-        Subcheck("mvn.log_prob", run_log_prob, strategy=log_prob_cases, quick=4000, thorough=100000, min_shard=100),
+        Subcheck("mvn.log_prob", run_log_prob, strategy=log_prob_cases, quick=3200, thorough=100000, min_shard=100),
         Subcheck("mvn.kl", run_kl, strategy=kl_cases, quick=1600, thorough=40000, min_shard=50),
         Subcheck("mvn.rsample_base", run_rsample, strategy=rsample_cases, quick=1600, thorough=40000, min_shard=50),
         Subcheck("mvn.variance", run_variance, strategy=variance_cases, quick=1200, thorough=20000, min_shard=50),
-        Subcheck("mvn.arith", run_arith, strategy=arith_cases, quick=3200, thorough=80000, min_shard=100),
+        Subcheck("mvn.arith", run_arith, strategy=arith_cases, quick=2400, thorough=80000, min_shard=100),
         Subcheck("mvn.moments", run_moments, strategy=moments_cases, quick=48, thorough=4000, min_shard=3),
-        Subcheck("mvn.index", run_index, strategy=index_cases, quick=8000, thorough=200000, min_shard=200),
+        Subcheck("mvn.index", run_index, strategy=index_cases, quick=5000, thorough=200000, min_shard=200),
         Subcheck("mvn.index_exhaustive", run_index_enum, enumerate=enumerate_index,
                  exhaustive_note="every index tuple of the stated family (all ints, slices with start/stop in {None,1,2,-1,size+2} x step in "
                                  "{None,2}, three 1-d index tensors, prefixes, `...` in every position) on mean shapes (2,3) for every "
